@@ -271,6 +271,10 @@ def systematic():
     progs = []
     K = kids_library()
     progs += unbraced(K)
+    # straight-line threads of k yields: the shape the line sweep runs at full scale (its Sweep events are judged by the closed
+    # form n yields, n + 1 effects, then exit - which TLC checks here against Exec / SeqRun for k = 1..8)
+    for k in range(1, 9):
+        progs.append({"name": "straight_%d" % k, "main": [["eff", 1], ["yield"]] * k + [["eff", 1]], "kids": K})
     for bn, body in blockers():
         for cn, main in contexts(body):
             progs.append({"name": "%s_%s" % (cn, bn), "main": main, "kids": K})
